@@ -448,6 +448,438 @@ Proof.
   destruct Hin as [Hin|Hin]; [discriminate|auto].
 Qed.
 
+(* ---- Add -------------------------------------------------------------- *)
+
+Lemma tbl_mem_get k t : tbl_mem k t = true <-> exists c, tbl_get k t = Some c.
+Proof.
+  unfold tbl_mem. destruct (tbl_get k t) as [c|]; split; try discriminate; eauto.
+  intros [c H]; discriminate.
+Qed.
+
+Lemma tbl_mem_false k t : tbl_mem k t = false <-> tbl_get k t = None.
+Proof. unfold tbl_mem. destruct (tbl_get k t); split; congruence. Qed.
+
+Lemma tbl_get_put k k' c t :
+  tbl_get k (tbl_put k' c t) = if streqb k' k then Some c else tbl_get k t.
+Proof. reflexivity. Qed.
+
+Lemma existsb_streqb k keys : existsb (fun k' => streqb k' k) keys = true <-> In k keys.
+Proof.
+  rewrite existsb_exists. split.
+  - intros (x & Hx & E). apply streqb_spec in E. now subst.
+  - intros H. exists k. split; [assumption | apply streqb_refl].
+Qed.
+
+Lemma existsb_streqb' a l : existsb (streqb a) l = true <-> In a l.
+Proof.
+  rewrite existsb_exists. split.
+  - intros (x & Hx & E). apply streqb_spec in E. now subst.
+  - intros H. exists a. split; [assumption | apply streqb_refl].
+Qed.
+
+Lemma tbl_get_put_all keys c : forall t k,
+  tbl_get k (put_all keys c t) =
+  if existsb (fun k' => streqb k' k) keys then Some c else tbl_get k t.
+Proof.
+  induction keys as [|k1 keys IH]; intros t k; [reflexivity|].
+  cbn [put_all existsb]. rewrite IH, tbl_get_put.
+  destruct (streqb k1 k); destruct (existsb _ keys); reflexivity.
+Qed.
+
+(* the table after a successful registration *)
+Lemma tbl_get_registered name als c t k :
+  tbl_get k (put_all als c (tbl_put name c t)) =
+  if existsb (fun k' => streqb k' k) (name :: als) then Some c else tbl_get k t.
+Proof.
+  rewrite tbl_get_put_all, tbl_get_put. cbn [existsb].
+  destruct (streqb name k); destruct (existsb _ als); reflexivity.
+Qed.
+
+Lemma alias_clash_false t name als : forall earlier,
+  alias_clash t name earlier als = false ->
+  (forall a, In a als -> tbl_mem a t = false /\ a <> name /\ ~ In a earlier) /\ NoDup als.
+Proof.
+  induction als as [|a r IH]; intros earlier H.
+  - split; [intros a []|constructor].
+  - cbn [alias_clash] in H.
+    destruct (tbl_mem a t || streqb a name || existsb (streqb a) earlier) eqn:E; [discriminate|].
+    apply orb_false_iff in E as [E E3]. apply orb_false_iff in E as [E1 E2].
+    apply streqb_false in E2.
+    assert (E3' : ~ In a earlier) by (intros Hi; apply existsb_streqb' in Hi; congruence).
+    apply IH in H as [Hall Hnd]. split.
+    + intros b [<-|Hb]; [auto|]. destruct (Hall b Hb) as (Hb1 & Hb2 & Hb3).
+      repeat split; auto. intros Hi. apply Hb3, in_or_app. now left.
+    + constructor; [|assumption]. intros Hi. destruct (Hall a Hi) as (_ & _ & Hb3).
+      apply Hb3, in_or_app. right. now left.
+Qed.
+
+Lemma alias_clash_true t name als : forall earlier,
+  alias_clash t name earlier als = true ->
+  (exists a, In a als /\ (tbl_mem a t = true \/ a = name \/ In a earlier)) \/ ~ NoDup als.
+Proof.
+  induction als as [|a r IH]; intros earlier H; [discriminate|].
+  cbn [alias_clash] in H.
+  destruct (tbl_mem a t || streqb a name || existsb (streqb a) earlier) eqn:E.
+  - left. exists a. split; [now left|].
+    apply orb_true_iff in E as [E|E]; [apply orb_true_iff in E as [E|E]|].
+    + now left.
+    + right; left. now apply streqb_spec.
+    + right; right. now apply existsb_streqb'.
+  - apply IH in H as [(b & Hb & [Hc|[Hc|Hc]]) | Hnd].
+    + left. exists b. split; [now right | now left].
+    + left. exists b. split; [now right | right; now left].
+    + apply in_app_or in Hc as [Hc|[<-|[]]].
+      * left. exists b. split; [now right | right; now right].
+      * right. intros Hnd. inversion Hnd; contradiction.
+    + right. intros H'. inversion H'; contradiction.
+Qed.
+
+Lemma alias_clash_complete t name als : forall earlier,
+  (forall a, In a als -> tbl_mem a t = false /\ a <> name /\ ~ In a earlier) -> NoDup als ->
+  alias_clash t name earlier als = false.
+Proof.
+  intros earlier Hall Hnd. destruct (alias_clash t name earlier als) eqn:E; [|reflexivity].
+  exfalso. apply alias_clash_true in E as [(a & Ha & Hc) | Hn]; [|contradiction].
+  destruct (Hall a Ha) as (H1 & H2 & H3). destruct Hc as [Hc|[Hc|Hc]]; congruence || contradiction.
+Qed.
+
+Lemma lower_valid_spec s l :
+  lower_valid s = Some l <-> lower_ascii_img s = Some l /\ name_ok l.
+Proof.
+  unfold lower_valid. destruct (lower_ascii_img s) as [l0|]; [|split; [discriminate|intros [H _]; discriminate]].
+  destruct (valid_name l0) eqn:E.
+  - apply valid_name_iff in E. split; [intros [= <-]; auto | intros [[= <-] _]; reflexivity].
+  - split; [discriminate|]. intros [[= <-] Hn]. apply valid_name_iff in Hn. congruence.
+Qed.
+
+Lemma lower_aliases_ok l als : lower_aliases l = Some als -> Forall name_ok als.
+Proof.
+  revert als; induction l as [|a r IH]; intros als; simpl.
+  - intros [= <-]. constructor.
+  - destruct (lower_valid a) as [a'|] eqn:Ea; [|discriminate].
+    destruct (lower_aliases r) as [r'|]; [|discriminate]. intros [= <-].
+    constructor; [|now apply IH]. now apply lower_valid_spec in Ea.
+Qed.
+
+(* invalid or duplicate => error, and the table is the one before the call *)
+Lemma add_rejects t cmd :
+  bad_registration t cmd -> exists err, add t cmd = (t, Some err).
+Proof.
+  unfold bad_registration, reg_keys, add.
+  destruct (lower_valid (c_name cmd)) as [name|]; [|intros _; eauto].
+  destruct (lower_aliases (c_aliases cmd)) as [als|]; [|intros _; eauto].
+  intros Hbad. destruct (tbl_mem name t) eqn:Em; [eauto|].
+  destruct (alias_clash t name [] als) eqn:Ec; [eauto|]. exfalso.
+  apply alias_clash_false in Ec as [Hall Hnd]. destruct Hbad as [Hn | (k & [<-|Hk] & Hm)].
+  - apply Hn. constructor; [|assumption]. intros Hi. now destruct (Hall name Hi) as (_ & ? & _).
+  - congruence.
+  - destruct (Hall k Hk) as (? & _). congruence.
+Qed.
+
+Lemma add_error_unchanged t cmd t' err : add t cmd = (t', Some err) -> t' = t.
+Proof.
+  unfold add. destruct (lower_valid _); [|now intros [= <-]].
+  destruct (lower_aliases _); [|now intros [= <-]].
+  destruct (tbl_mem _ t); [now intros [= <-]|].
+  destruct (alias_clash _ _ _ _); [now intros [= <-]|discriminate].
+Qed.
+
+(* neither invalid nor duplicate => registered: every claimed key now addresses the
+   command, every other key is as before *)
+Lemma add_accepts t cmd name als :
+  reg_keys cmd = Some (name :: als) -> ~ bad_registration t cmd ->
+  add t cmd = (put_all als (stored cmd name als) (tbl_put name (stored cmd name als) t), None).
+Proof.
+  unfold bad_registration, reg_keys, add.
+  destruct (lower_valid (c_name cmd)) as [name0|]; [|discriminate].
+  destruct (lower_aliases (c_aliases cmd)) as [als0|]; [|discriminate].
+  intros [= -> ->] Hgood.
+  destruct (tbl_mem name t) eqn:Em.
+  { exfalso. apply Hgood. right. exists name. split; [now left|assumption]. }
+  destruct (alias_clash t name [] als) eqn:Ec; [|reflexivity].
+  exfalso. apply Hgood. apply alias_clash_true in Ec as [(a & Ha & [Hc|[Hc|[]]]) | Hn].
+  - right. exists a. split; [now right|assumption].
+  - left. subst a. intros Hnd. inversion Hnd; contradiction.
+  - left. intros Hnd. inversion Hnd; contradiction.
+Qed.
+
+Lemma add_accepts_lookup t cmd name als :
+  reg_keys cmd = Some (name :: als) -> ~ bad_registration t cmd ->
+  snd (add t cmd) = None /\
+  forall k, tbl_get k (fst (add t cmd)) =
+            if existsb (fun k' => streqb k' k) (name :: als) then Some (stored cmd name als)
+            else tbl_get k t.
+Proof.
+  intros Hk Hg. rewrite (add_accepts t cmd name als Hk Hg).
+  split; [reflexivity|]. intros k. apply tbl_get_registered.
+Qed.
+
+Lemma add_ok_inv t cmd t' :
+  add t cmd = (t', None) ->
+  exists name als, reg_keys cmd = Some (name :: als) /\ ~ bad_registration t cmd /\
+    t' = put_all als (stored cmd name als) (tbl_put name (stored cmd name als) t).
+Proof.
+  unfold bad_registration, reg_keys, add.
+  destruct (lower_valid (c_name cmd)) as [name|]; [|discriminate].
+  destruct (lower_aliases (c_aliases cmd)) as [als|]; [|discriminate].
+  destruct (tbl_mem name t) eqn:Em; [discriminate|].
+  destruct (alias_clash t name [] als) eqn:Ec; [discriminate|].
+  intros [= <-]. exists name, als. split; [reflexivity|]. split; [|reflexivity].
+  apply alias_clash_false in Ec as [Hall Hnd]. intros [Hn | (k & [<-|Hk] & Hm)].
+  - apply Hn. constructor; [|assumption]. intros Hi. now destruct (Hall name Hi) as (_ & ? & _).
+  - congruence.
+  - destruct (Hall k Hk) as (? & _). congruence.
+Qed.
+
+(* C18_add_rejects, both readings at once: bad => error; error => table unchanged *)
+Lemma add_rejects_full t cmd :
+  (bad_registration t cmd -> exists err, add t cmd = (t, Some err)) /\
+  (forall t' err, add t cmd = (t', Some err) -> t' = t /\ bad_registration t cmd).
+Proof.
+  split; [apply add_rejects|]. intros t' err H. split; [eapply add_error_unchanged; eauto|].
+  unfold bad_registration. destruct (reg_keys cmd) as [[|name als]|] eqn:Ek; auto.
+  - unfold reg_keys in Ek. destruct (lower_valid _); [destruct (lower_aliases _)|]; discriminate.
+  - unfold reg_keys in Ek. unfold add in H.
+    destruct (lower_valid (c_name cmd)) as [name0|]; [|discriminate].
+    destruct (lower_aliases (c_aliases cmd)) as [als0|]; [|discriminate].
+    injection Ek as -> ->.
+    destruct (tbl_mem name t) eqn:Em.
+    { right. exists name. split; [now left|assumption]. }
+    destruct (alias_clash t name [] als) eqn:Ec; [|discriminate].
+    apply alias_clash_true in Ec as [(a & Ha & [Hc|[Hc|[]]]) | Hn].
+    + right. exists a. split; [now right|assumption].
+    + left. subst a. intros Hnd. inversion Hnd; contradiction.
+    + left. intros Hnd. inversion Hnd; contradiction.
+Qed.
+
+(* what is invocable after Add, in one equation per outcome *)
+Lemma add_lookup t cmd k :
+  tbl_get k (fst (add t cmd)) =
+  match snd (add t cmd), reg_keys cmd with
+  | None, Some (name :: als) =>
+      if existsb (fun k' => streqb k' k) (name :: als) then Some (stored cmd name als)
+      else tbl_get k t
+  | _, _ => tbl_get k t
+  end.
+Proof.
+  destruct (add t cmd) as [t' [err|]] eqn:E; cbn [fst snd].
+  - apply add_error_unchanged in E. now subst.
+  - apply add_ok_inv in E as (name & als & -> & _ & ->). apply tbl_get_registered.
+Qed.
+
+(* a key that addresses a command keeps addressing it: registrations never overwrite *)
+Lemma add_preserves t cmd k c :
+  tbl_get k t = Some c -> tbl_get k (fst (add t cmd)) = Some c.
+Proof.
+  intros Hg. destruct (add t cmd) as [t' [err|]] eqn:E; cbn [fst].
+  - apply add_error_unchanged in E. now subst.
+  - apply add_ok_inv in E as (name & als & Hk & Hgood & ->).
+    rewrite tbl_get_registered. destruct (existsb _ (name :: als)) eqn:Ex; [|assumption].
+    exfalso. apply Hgood. unfold bad_registration. rewrite Hk. right. exists k.
+    split; [now apply existsb_streqb | apply tbl_mem_get; eauto].
+Qed.
+
+(* every table Add can build: keys are valid names, each key is the name or an alias of
+   the command it addresses, MinArgs is not negative *)
+Definition table_wf (t : cmd_table) : Prop :=
+  forall k c, tbl_get k t = Some c ->
+    name_ok k /\ (k = c_name c \/ In k (c_aliases c)) /\ (0 <= c_minargs c)%Z /\
+    name_ok (c_name c) /\ Forall name_ok (c_aliases c) /\
+    tbl_get (c_name c) t = Some c /\ (forall a, In a (c_aliases c) -> tbl_get a t = Some c).
+
+Lemma reachable_wf t : reachable t -> table_wf t.
+Proof.
+  induction 1 as [|t cmd Hr IH]; [intros k c H; discriminate|].
+  destruct (add t cmd) as [t' [err|]] eqn:E; cbn [fst].
+  - apply add_error_unchanged in E. now subst.
+  - pose proof E as E'. apply add_ok_inv in E' as (name & als & Hk & Hgood & ->).
+    assert (Hname : name_ok name /\ Forall name_ok als).
+    { unfold reg_keys in Hk. destruct (lower_valid (c_name cmd)) as [n0|] eqn:E1; [|discriminate].
+      destruct (lower_aliases (c_aliases cmd)) as [a0|] eqn:E2; [|discriminate].
+      injection Hk as -> ->. split; [now apply lower_valid_spec in E1 | now apply lower_aliases_ok in E2]. }
+    destruct Hname as [Hn Ha].
+    assert (Hfresh : forall k, In k (name :: als) -> tbl_get k t = None).
+    { intros k Hi. destruct (tbl_get k t) eqn:G; [|reflexivity]. exfalso. apply Hgood.
+      unfold bad_registration. rewrite Hk. right. exists k. split; [assumption|]. apply tbl_mem_get; eauto. }
+    intros k c. rewrite tbl_get_registered.
+    destruct (existsb _ (name :: als)) eqn:Ex.
+    + intros [= <-]. apply existsb_streqb in Ex. cbn [stored c_name c_aliases c_minargs].
+      split; [destruct Ex as [<-|Ex]; [assumption | rewrite Forall_forall in Ha; auto]|].
+      split; [destruct Ex as [<-|Ex]; auto|].
+      split; [destruct (c_minargs cmd <? 0)%Z eqn:Ez; lia|].
+      split; [assumption|]. split; [assumption|]. split.
+      * rewrite tbl_get_registered. cbn [existsb]. now rewrite streqb_refl.
+      * intros a Hi. rewrite tbl_get_registered.
+        assert (X : existsb (fun k' => streqb k' a) (name :: als) = true)
+          by (apply existsb_streqb; now right). now rewrite X.
+    + intros G. destruct (IH k c G) as (H1 & H2 & H3 & H4 & H5 & H6 & H7).
+      repeat (split; [assumption|]). split.
+      * rewrite tbl_get_registered.
+        destruct (existsb (fun k' => streqb k' (c_name c)) (name :: als)) eqn:Ex2; [|exact H6].
+        apply existsb_streqb in Ex2. apply Hfresh in Ex2. congruence.
+      * intros a Hi. rewrite tbl_get_registered.
+        destruct (existsb (fun k' => streqb k' a) (name :: als)) eqn:Ex2; [|exact (H7 a Hi)].
+        apply existsb_streqb in Ex2. apply Hfresh in Ex2. rewrite (H7 a Hi) in Ex2. discriminate.
+Qed.
+
+(* ---- the built-in help --------------------------------------------------- *)
+
+Lemma help_name_ok : name_ok help_name.
+Proof. apply valid_name_iff. reflexivity. Qed.
+
+(* the outcome of an addressed "help", for every prefix: never an invocation, always one
+   reply, routed like every reply *)
+Lemma help_outcome h e src raw :
+  ev_source e = Some src -> ev_command e = PRIVMSG ->
+  addresses (h_prefix h) (last_param e) help_name raw ->
+  execute h e =
+    let target := fst (reply_route e src) in
+    let lead := snd (reply_route e src) in
+    match split_args raw with
+    | [] => ReplyHelp HelpGeneric target lead
+    | a0 :: _ =>
+      match match lower_ascii_img a0 with Some k => tbl_get k (h_cmds h) | None => None end with
+      | None => ReplyHelp HelpUnknown target lead
+      | Some c => if c_has_help c then ReplyHelp (HelpText c) target lead
+                  else ReplyHelp HelpNoDoc target lead
+      end
+    end.
+Proof.
+  intros Hs Hc Ha. apply cmd_match_addressed in Ha. unfold execute.
+  rewrite Hs, Hc, streqb_refl. cbn [negb]. rewrite Ha. cbv zeta.
+  destruct help_name_ok as (_ & _ & Hn). rewrite (to_lower_name _ Hn), streqb_refl.
+  destruct (reply_route e src) as [target lead]. reflexivity.
+Qed.
+
+(* "help" alone *)
+Lemma help_generic h e src :
+  ev_source e = Some src -> ev_command e = PRIVMSG ->
+  addresses (h_prefix h) (last_param e) help_name [] ->
+  execute h e = ReplyHelp HelpGeneric (fst (reply_route e src)) (snd (reply_route e src)).
+Proof. intros Hs Hc Ha. now rewrite (help_outcome h e src [] Hs Hc Ha). Qed.
+
+(* "help k ...": the documentation of the command that k addresses *)
+Lemma help_of_registered h e src raw a0 rest k c :
+  ev_source e = Some src -> ev_command e = PRIVMSG ->
+  addresses (h_prefix h) (last_param e) help_name raw ->
+  args_split raw (a0 :: rest) -> lower_ascii_img a0 = Some k -> tbl_get k (h_cmds h) = Some c ->
+  execute h e = ReplyHelp (if c_has_help c then HelpText c else HelpNoDoc)
+                          (fst (reply_route e src)) (snd (reply_route e src)).
+Proof.
+  intros Hs Hc Ha Hsp Hl Hg. rewrite (help_outcome h e src raw Hs Hc Ha). cbv zeta.
+  apply args_split_eq in Hsp. rewrite <- Hsp, Hl, Hg. now destruct (c_has_help c).
+Qed.
+
+Lemma help_of_unknown h e src raw a0 rest :
+  ev_source e = Some src -> ev_command e = PRIVMSG ->
+  addresses (h_prefix h) (last_param e) help_name raw ->
+  args_split raw (a0 :: rest) ->
+  (forall k, lower_ascii_img a0 = Some k -> tbl_get k (h_cmds h) = None) ->
+  execute h e = ReplyHelp HelpUnknown (fst (reply_route e src)) (snd (reply_route e src)).
+Proof.
+  intros Hs Hc Ha Hsp Hno. rewrite (help_outcome h e src raw Hs Hc Ha). cbv zeta.
+  apply args_split_eq in Hsp. rewrite <- Hsp.
+  destruct (lower_ascii_img a0) as [k|]; [|reflexivity]. now rewrite (Hno k eq_refl).
+Qed.
+
+(* lower-casing a valid name changes nothing (strings.ToLower on an ASCII lower-case word) *)
+Lemma lower_ascii_img_name n : Forall name_char n -> lower_ascii_img n = Some n.
+Proof.
+  induction 1 as [|b n Hb Hn IH]; [reflexivity|].
+  cbn [lower_ascii_img]. assert (Hlt : (b <? 128) = true) by (unfold name_char in Hb; lia).
+  rewrite Hlt, IH. cbn [option_map]. now rewrite lower1_name_char.
+Qed.
+
+(* the usage reply points at the built-in help of the same command: the text it quotes,
+   sent back as it is, is answered with that command's documentation *)
+Lemma usage_suggestion_addresses_help prefix n :
+  name_ok n -> addresses prefix (prefix ++ usage_c ++ n) help_name n.
+Proof.
+  intros Hn. split; [exact help_name_ok|]. split.
+  - intros Hi. destruct Hn as (_ & _ & Hn). rewrite Forall_forall in Hn.
+    apply Hn in Hi. now apply name_char_not_lf in Hi.
+  - right. reflexivity.
+Qed.
+
+Lemma usage_then_help h e src n c :
+  ev_source e = Some src -> ev_command e = PRIVMSG ->
+  name_ok n -> tbl_get n (h_cmds h) = Some c ->
+  last_param e = h_prefix h ++ usage_c ++ n ->
+  execute h e = ReplyHelp (if c_has_help c then HelpText c else HelpNoDoc)
+                          (fst (reply_route e src)) (snd (reply_route e src)).
+Proof.
+  intros Hs Hc Hn Hg Ht.
+  assert (Hsp : args_split n [n]).
+  { destruct Hn as (Hl & _ & Hch). split.
+    - intros ->. simpl in Hl. lia.
+    - intros _. split; [discriminate|]. split; [reflexivity|]. constructor; [|constructor].
+      intros Hi. rewrite Forall_forall in Hch. apply Hch in Hi. now apply name_char_not_space in Hi. }
+  apply (help_of_registered h e src n n [] n c); auto.
+  - rewrite Ht. now apply usage_suggestion_addresses_help.
+  - apply lower_ascii_img_name. now destruct Hn as (_ & _ & ?).
+Qed.
+
+(* ---- reply routing (Commands.ReplyTo) ---------------------------------- *)
+
+Lemma reply_route_channel e src p0 ps :
+  ev_params e = p0 :: ps -> is_valid_channel p0 = true ->
+  reply_route e src = (p0, src ++ [44; 32]).
+Proof. intros Hp Hc. unfold reply_route. now rewrite Hp, Hc. Qed.
+
+Lemma reply_route_private e src :
+  (forall p0 ps, ev_params e = p0 :: ps -> is_valid_channel p0 = false) ->
+  reply_route e src = (src, []).
+Proof.
+  intros H. unfold reply_route. destruct (ev_params e) as [|p0 ps]; [reflexivity|].
+  now rewrite (H p0 ps eq_refl).
+Qed.
+
+(* ---- the U+FFFD prefix: the converse does NOT hold for every prefix ---- *)
+
+Definition fffd_handler : cmd_handler :=
+  mk_handler fffd (fst (add [] (mk_command 0 (bs "ping") [] false 0))).
+Definition fffd_event : event :=
+  mk_event (Some (bs "nick")) PRIVMSG [bs "bot"; 255 :: bs "ping"].
+
+Lemma fffd_prefix_refuted :
+  exists h e c args raw,
+    new_handler (h_prefix h) = Some (mk_handler (h_prefix h) []) /\
+    reachable (h_cmds h) /\
+    execute h e = Invoke c args raw /\
+    ~ prefixb (h_prefix h) (last_param e) = true /\
+    forall n raw', ~ addresses (h_prefix h) (last_param e) n raw'.
+Proof.
+  exists fffd_handler, fffd_event, (stored (mk_command 0 (bs "ping") [] false 0) (bs "ping") []), [], [].
+  split; [reflexivity|]. split; [apply reach_add, reach_empty|]. split; [reflexivity|].
+  split; [vm_compute; discriminate|].
+  intros n raw' (_ & _ & [[Ht _] | Ht]); vm_compute in Ht; discriminate.
+Qed.
+
+(* ---- registrations and invocations together ------------------------------ *)
+
+(* after a successful Add on a table Add built, each claimed key, addressed with enough
+   arguments, runs the command just registered *)
+Lemma registered_then_invoked t cmd name als prefix e src k raw args :
+  reg_keys cmd = Some (name :: als) -> ~ bad_registration t cmd ->
+  In k (name :: als) -> k <> help_name ->
+  ev_source e = Some src -> ev_command e = PRIVMSG ->
+  addresses prefix (last_param e) k raw -> args_split raw args ->
+  (c_minargs (stored cmd name als) <= Z.of_nat (length args))%Z ->
+  execute (mk_handler prefix (fst (add t cmd))) e = Invoke (stored cmd name als) args raw.
+Proof.
+  intros Hk Hgood Hin Hh Hs Hc Ha Hsp Hz.
+  apply (invoke_addressed (mk_handler prefix (fst (add t cmd))) e src k raw); auto.
+  cbn [h_cmds]. rewrite add_lookup, (add_accepts t cmd name als Hk Hgood). cbn [snd]. rewrite Hk.
+  assert (X : existsb (fun k' => streqb k' k) (name :: als) = true) by now apply existsb_streqb.
+  now rewrite X.
+Qed.
+
+(* and a rejected Add changes nothing that can be invoked *)
+Lemma rejected_changes_nothing t cmd prefix e :
+  bad_registration t cmd ->
+  execute (mk_handler prefix (fst (add t cmd))) e = execute (mk_handler prefix t) e.
+Proof. intros Hb. apply add_rejects in Hb as [err ->]. reflexivity. Qed.
+
 (* ---- examples: the hypotheses are satisfiable -------------------------- *)
 
 Definition ex_prefix : str := Eval vm_compute in bs "$^".
@@ -530,3 +962,41 @@ Example ex_near_misses :
   execute ex_handler (mk_event (Some (bs "nick")) NOTICE [bs "#chan"; bs "$^ping a b"]) = Nothing /\
   execute ex_handler (mk_event (Some (bs "nick")) PRIVMSG []) = Nothing.
 Proof. vm_compute. repeat split. Qed.
+
+(* registrations: a duplicate alias (after lower-casing: "P" clashes with "p"), an invalid
+   alias, a name that is its own alias, and one that is accepted; U+212A lower-cases to k *)
+Example ex_add :
+  let dup := mk_command 8 (bs "pong") [bs "x"; bs "P"] false 0 in
+  let inval := mk_command 9 (bs "pong") [bs "bad alias"] false 0 in
+  let self := mk_command 10 (bs "self") [bs "SELF"] false 0 in
+  let long := mk_command 11 (bs "abcdefghij0123456789x") [] false 0 in
+  let good := mk_command 12 [226; 132; 170] [bs "q-1"; bs "_"] false (-3) in
+  bad_registration ex_table dup /\ add ex_table dup = (ex_table, Some ErrDupAlias) /\
+  bad_registration ex_table inval /\ add ex_table inval = (ex_table, Some ErrInvalidAlias) /\
+  bad_registration ex_table self /\ add ex_table self = (ex_table, Some ErrDupAlias) /\
+  bad_registration ex_table long /\ add ex_table long = (ex_table, Some ErrInvalidName) /\
+  bad_registration ex_table ex_cmd /\ add ex_table ex_cmd = (ex_table, Some ErrDupName) /\
+  reg_keys good = Some [bs "k"; bs "q-1"; bs "_"] /\ ~ bad_registration ex_table good /\
+  snd (add ex_table good) = None /\
+  tbl_get (bs "_") (fst (add ex_table good)) = Some (stored good (bs "k") [bs "q-1"; bs "_"]) /\
+  c_minargs (stored good (bs "k") [bs "q-1"; bs "_"]) = 0%Z /\
+  tbl_get (bs "p") (fst (add ex_table good)) = Some ex_stored.
+Proof.
+  cbv zeta.
+  split. { right. exists (bs "p"). split; [right; right; now left | reflexivity]. }
+  split; [reflexivity|].
+  split. { exact I. }
+  split; [reflexivity|].
+  split. { left. intros H. inversion H as [|? ? Hn _]. apply Hn. now left. }
+  split; [reflexivity|].
+  split. { exact I. }
+  split; [reflexivity|].
+  split. { right. exists (bs "ping"). split; [now left | reflexivity]. }
+  split; [reflexivity|].
+  split; [reflexivity|].
+  split.
+  { intros [Hn | (k & Hk & Hm)].
+    - apply Hn. repeat constructor; simpl; intuition discriminate.
+    - destruct Hk as [<-|[<-|[<-|[]]]]; vm_compute in Hm; discriminate. }
+  repeat split; reflexivity.
+Qed.
